@@ -232,21 +232,41 @@ def objects_model(work, rep: Report) -> None:
                 return e, f"OE {we}"
             if kind == "OP":
                 return Point(**pt), f"OP {wire.point(pt)}"
+            # the state of a derivative object (symbolic partial computed or not, and by which route)
+            # is not part of what == and hash look at
+            state = rng.choice(["late", "late", "early", "asexpr", "component"])
             if kind == "OPA":
+                if state == "early":
+                    return sm.Partial(e, v, compute_early=True), f"OPA {v} {we}"
+                if state == "asexpr":
+                    P = sm.Partial(e, v)
+                    P.as_expression()
+                    return P, f"OPA {v} {we}"
+                if state == "component":
+                    return sm.Differential(e, compute_early=True).component(v), f"OPA {v} {we}"
                 return sm.Partial(e, v), f"OPA {v} {we}"
             if kind == "ODE":
-                if len(e._variable_names) > 1:
-                    return sm.Differential(e), f"ODI {we}"
-                return sm.Derivative(e), f"ODE {we}"
+                if len(e._variable_names) != 1:
+                    return sm.Differential(e, compute_early=(state == "early")), f"ODI {we}"
+                D = sm.Derivative(e, compute_early=(state == "early"))
+                if state == "asexpr":
+                    D.as_expression()
+                return D, f"ODE {we}"
             if kind == "ODI":
-                return sm.Differential(e), f"ODI {we}"
+                return sm.Differential(e, compute_early=(state in ("early", "component"))), f"ODI {we}"
             return sm.LocatedDifferential(e, Point(**pt), _private={"numeric_partials": {}}), f"OL {we} {wire.point(pt)}"
+        def safe_draw():
+            for _ in range(5):
+                r = call(draw, timeout=20)
+                if r[0] == "ok":
+                    return r[1]
+            return a, f"OE {c['a']}"
         for _ in range(6):
-            o1, w1 = draw()
-            o2, w2 = draw() if rng.random() < 0.3 else (None, None)
+            o1, w1 = safe_draw()
+            o2, w2 = safe_draw() if rng.random() < 0.3 else (None, None)
             if o2 is None:      # mostly the same class, so that equal pairs are frequent
                 for _ in range(20):
-                    o2, w2 = draw()
+                    o2, w2 = safe_draw()
                     if type(o2) is type(o1) or (wire.cls(o1) in wire.HEAD and wire.cls(o2) in wire.HEAD):
                         break
             asks.append((c, o1, o2, w1, w2, b.ask(f"F0 obeq {w1} {w2}")))
